@@ -1034,6 +1034,9 @@ func (g *FnGen) knownRefs() []string {
 		if _, isConst := v.(*ssa.Const); isConst {
 			continue
 		}
+		if !g.inScope(v) {
+			continue
+		}
 		if !seen[t.S] && strings.HasPrefix(t.S, "|") {
 			seen[t.S] = true
 			out = append(out, t.S)
@@ -1063,7 +1066,7 @@ func (g *FnGen) knownRefsFor(key string) []string {
 	seen := map[string]bool{}
 	var out []string
 	for v, t := range g.vals {
-		if t.Sort != "Int" || !strings.HasPrefix(t.S, "|") || seen[t.S] {
+		if t.Sort != "Int" || !strings.HasPrefix(t.S, "|") || seen[t.S] || !g.inScope(v) {
 			continue
 		}
 		vt := types.Unalias(v.Type())
@@ -1084,4 +1087,21 @@ func (g *FnGen) knownRefsFor(key string) []string {
 		out = out[:20]
 	}
 	return out
+}
+
+// inScope: the value is defined in a block that dominates the block being generated (its declaration is then
+// part of every query sliced for this block).
+func (g *FnGen) inScope(v ssa.Value) bool {
+	in, ok := v.(ssa.Instruction)
+	if !ok || in.Block() == nil {
+		return true
+	}
+	cur := g.curTag
+	if xb, ok := g.xtagBlock[cur]; ok {
+		cur = xb
+	}
+	if cur < 0 || cur >= len(g.fn.Blocks) {
+		return cur == -1 || in.Block().Index == 0
+	}
+	return in.Block().Dominates(g.fn.Blocks[cur])
 }
